@@ -85,6 +85,9 @@ def run(model, tier="quick"):
     from .base_refs import swap_sizing
     swap_sizing(res, model)      # the value algebra add_liquidity_by_value feeds with orientation-mapped values
     res.floor("obligations", len(res.obligations), 27)
+    # premise: the primitive that stores a position keeps its bounds by orientation on EVERY path (new key and re-used key)
+    from .C07 import uni_ledgers
+    uni_ledgers(res, model)
     from ..rules.orientx import orientation_rule
     if "R-ORIENT" not in res.rules:
         res.rules.append("R-ORIENT")
